@@ -394,6 +394,10 @@ def ex_Subscript(self, node, fr):
 
 
 def subscript(self, base, idx):
+    ba = base.single_atom()
+    if ba is not None and ba.kind == 'ext' and ba.args[0] in ('numpy.s_', 'numpy.index_exp'):
+        return idx                  # np.s_[a:b] is the slice object itself
+    ia0 = idx.single_atom()
     seq = as_seq(base)
     if seq is not None:
         r = seq_index(seq, idx)
